@@ -26,6 +26,33 @@ def _gen_c11(repo, work):
     return [path]
 
 
+def _gen_c15(repo, work):
+    g = _ct.ral_governance_parsers(repo)
+    # action ids of the two free-form upgrade kinds
+    import re
+    src = _ct._strip_comments(open(os.path.join(repo, "alephium/contracts/governance.ral")).read())
+    core_up = int(re.search(r"ContractUpgrade\s*=\s*#([0-9a-fA-F]{2})", src).group(1), 16)
+    src2 = _ct._strip_comments(open(os.path.join(repo, "alephium/contracts/token_bridge/token_bridge_governance.ral")).read())
+    tb_up = int(re.search(r"ContractUpgrade\s*=\s*#([0-9a-fA-F]{2})", src2).group(1), 16)
+    path = os.path.join(work, "gen_c15.go")
+    with open(path, "w") as f:
+        f.write("package guardiand\n\n// generated from governance.ral and token_bridge_governance.ral by extract/contracts.py\n")
+        f.write("const verifCoreUpgradeAction = %d\nconst verifTBUpgradeAction = %d\n" % (core_up, tb_up))
+        f.write("var verifGovParsers = map[string]verifGovParser{\n")
+        for name, p in sorted(g.items()):
+            seen, fl = set(), []
+            for (n, a, b) in p["fields"]:
+                if (a, b) in seen:
+                    continue
+                seen.add((a, b))
+                fl.append('{"%s", %d, %d}' % (n, a, b))
+            base, lf, k = p["size"]
+            f.write('\t"%s": {ModuleHex: "%s", Action: %d, Fields: []verifGovField{%s}, SizeBase: %d, SizeLenField: "%s", SizeLenFactor: %d},\n' % (
+                name, p["module"], p["action"], ", ".join(fl), base, lf or "", k))
+        f.write("}\n")
+    return [path]
+
+
 def _gen_c07(repo, work):
     sol, ral = _ct.sol_quorum_expr(repo), _ct.ral_quorum_expr(repo)
     path = os.path.join(work, "gen_c07.go")
@@ -268,6 +295,23 @@ CHECKS["C11"] = {
                     "attestation layout extracted from token_bridge.ral attestToken (payload concatenation and size assertions) on every run",
                     "pkg/alephium is loaded through the stripped-p2p.Run overlay"],
 }
+CHECKS["C15"] = {
+    "runs": [
+        {"pkg": "./cmd/guardiand", "entry": "VerifC15_Requests", "reach": ["accepted", "rejected"], "opts": {"z3": "z3-new"},
+         "shards": {"quick": ["kind=0", "kind=1;amount.len=31,32", "kind=1;amount.len=33", "kind=2", "kind=3", "kind=4", "kind=5", "kind=6;sequences=0,1,2", "kind=7", "kind=8;refund.len=0,1,33", "kind=9"],
+                    "thorough": ["kind=0", "kind=1", "kind=2", "kind=3", "kind=4", "kind=5", "kind=6;sequences=0,1,2", "kind=6;sequences=65535", "kind=6;sequences=65536", "kind=7", "kind=8;refund.len=0,1,33", "kind=8;refund.len=65535;refund.form=0", "kind=8;refund.len=65536;refund.form=0", "kind=9"]},
+         "timeout": {"quick": 2400, "thorough": 30000}},
+        {"pkg": "./cmd/guardiand", "entry": "VerifC15_Pure", "reach": ["end"], "opts": {"z3": "z3-new"}},
+        {"pkg": "./cmd/guardiand", "entry": "VerifC15_Sequence", "reach": ["end"], "opts": {"z3": "z3-new"}},
+    ],
+    "bounds": {"quick": {"requests": "each of the nine governance message kinds plus a message without payload, through the real InjectGovernanceVAA; sequence, nonce, timestamp, set index fully symbolic; target chain any 16-bit value or 65536+x; hex fields of 0/31/32/33 symbolic bytes (valid hex, odd length, non-hex); guardians 0,1,2,3,19,20 (optionally one malformed key); module names of 0/4/11/32/33 bytes; chain ids 16-bit or 65536+x; consistency level 8-bit or 256+x; 0..2 sequences; refund address 0/1/33 bytes",
+                         "contract side": "module constant, action id, payload slices and size assertions extracted from governance.ral / token_bridge_governance.ral on every run"},
+               "thorough": {"requests": "additionally 65535 and 65536 sequences, refund addresses of 65535 and 65536 bytes"}},
+    "outside": "the two free-form contract-upgrade payloads are only checked for module, action and byte-exact code; the contracts' semantic checks on values (e.g. length > 0, remote chain != local chain); gRPC transport; several messages in one request",
+    "assumptions": ["hex.DecodeString / common.IsHexAddress / common.HexToAddress on rendered hex digits modelled as the inverse of the injective nibble rendering",
+                    "encoding/binary.Write model; bytes.Buffer executed; zap no-op; proto String() opaque",
+                    "cmd/guardiand is loaded through the stripped-p2p.Run overlay"],
+}
 
 # generated harness parts per (module, package): regenerated from /repo on every run for every check that loads the package
-GENERATORS = {("node", "./pkg/vaa"): [_gen_c04], ("node", "./pkg/processor"): [_gen_c07], ("node", "./pkg/alephium"): [_gen_c11]}
+GENERATORS = {("node", "./pkg/vaa"): [_gen_c04], ("node", "./pkg/processor"): [_gen_c07], ("node", "./pkg/alephium"): [_gen_c11], ("node", "./cmd/guardiand"): [_gen_c15]}
